@@ -217,6 +217,20 @@ def _check_values(ctx, v, P, idx, got, memo, opname, opi):
             )
 
 
+def _legal_call(opi, name, args, fn):
+    """Every batch handed to fn() here is inside the table (or above the maximum angle): it must
+    return.  An exception is a violation, named for what it is."""
+    try:
+        return fn()
+    except Violation:
+        raise
+    except Exception as e:  # noqa: BLE001
+        ro = [k for k, a in enumerate(args) if isinstance(a, np.ndarray) and not a.flags.writeable]
+        if ro and "read-only" in str(e):
+            raise Violation("c05.argument_modified", f"op {opi} {name}: raised {type(e).__name__}: {str(e)[:120]} — an argument was passed read-only and the call writes into it", sig="args:read-only")
+        raise Violation("c05.legal_query_raises", f"op {opi} {name}: a batch of in-table queries raised {type(e).__name__}: {str(e)[:160]}", sig="raises")
+
+
 def scn_history(ctx):
     from nuspacesim.simulation.taus.taus import Taus
 
@@ -400,13 +414,13 @@ def scn_history(ctx):
             _check_values(ctx, v, P, idx, got2.reshape(-1), memo, name + "[2-D]", opi)
             E, B = E2, B2
         elif name.startswith("tau_exit_prob"):
-            got = obj.tau_exit_prob(B, E)
+            got = _legal_call(opi, name, (B, E), lambda: obj.tau_exit_prob(B, E))
             ctx.log(f"op{opi} {name} n={len(idx)} first={int(idx[0])} cats={sorted(set(P['cat'][i] for i in idx[:50].tolist()))}")
             _check_values(ctx, v, P, idx, got, memo, name, opi)
             held.hold(opi, name, [got])
         elif name == "tau_energy":
             with histsim.constant_stream():
-                obj.tau_energy(B, E)
+                _legal_call(opi, name, (B, E), lambda: obj.tau_energy(B, E))
             ctx.log(f"op{opi} tau_energy (disturbance) n={len(idx)}")
         else:
             pl = None
@@ -431,7 +445,7 @@ def scn_history(ctx):
                     finally:
                         plt.close("all")
                 else:
-                    out = obj(B, E)
+                    out = _legal_call(opi, name, (B, E), lambda: obj(B, E))
             ctx.log(f"op{opi} __call__ n={len(idx)} plot={pl}")
             _check_values(ctx, v, P, idx, out[4], memo, f"__call__[tauExitProb{', plot=' + pl if pl else ''}]", opi)
         if histsim.digest_args((E, B)) != before:
